@@ -48,6 +48,23 @@ def shift (z : Zone) (useHint : Bool) (now : Aware) (sign : Int) (calDays clock 
   let o := z.localize wall (if useHint then z.dstAt now.instant else false)
   z.normalize { wall := wall + sign * clock, off := o }
 
+/-- a zone as the standard library presents it (zoneinfo): the offset `utcoffset()` reports for a wall clock -/
+structure WallZone where
+  offOfWall : Int → Int
+
+/-- the branch for zones that are not pytz zones (TIMEZONE='local' → zoneinfo): aware arithmetic moves the wall clock; when the offset reported
+    after the clock part differs from the one before it, the wall clock is moved by the difference as well (`corrects`; the first form of
+    the code did no such thing) -/
+def shiftWall (z : WallZone) (corrects : Bool) (nowWall : Int) (sign : Int) (calDays clock : Nat) : Aware :=
+  let wall1 := nowWall + sign * (calDays * 86400)
+  let off1 := z.offOfWall wall1
+  let wall2 := wall1 + sign * clock
+  let off2 := z.offOfWall wall2
+  if corrects && off2 != off1 then
+    let wall3 := wall2 + (off2 - off1)
+    { wall := wall3, off := z.offOfWall wall3 }
+  else { wall := wall2, off := off2 }
+
 /-- `_parse_date` on a pytz zone, as /repo has it (`Gen.freshSplitByPhraseUnits`, `Gen.freshLocalizeUsesDstHint`) -/
 def parseRel (z : Zone) (now : Aware) (sign : Int) (u : Units) : Aware :=
   let p := split Gen.freshSplitByPhraseUnits u
